@@ -157,10 +157,10 @@ ExecMulDiv(s, i) ==
                                    !.freeregs = {"ax", "dx"}, !.undef = Status]
      ELSE ok
 
-ExecAdjust(s, i) ==
-  LET r == Adjust(i.op, s.regs["ax"], s.regs["dx"], s.flags)
-  IN Res([s.regs EXCEPT !["ax"] = r.ax, !["dx"] = r.dx],
-         NewFlags(s.flags, r.def, r.fl), r.undef, NoWrites, s.stack, Next1)
+AdjustRes(s, r) ==
+  Res([s.regs EXCEPT !["ax"] = r.ax, !["dx"] = r.dx],
+      NewFlags(s.flags, r.def, r.fl), r.undef, NoWrites, s.stack, Next1)
+ExecAdjust(s, i) == AdjustRes(s, Adjust(i.op, s.regs["ax"], s.regs["dx"], s.flags))
 
 ExecMov(s, i) ==
   LET st == Store(s, s.regs, i.dst, i.w, Val(s, i.src, i.w))
@@ -325,6 +325,12 @@ Exec(s, i, idx) ==
     [] i.cls = "int"      -> ExecInt(s, i)
     [] i.cls = "print"    -> ExecPrint(s, i)
     [] i.cls = "string"   -> ExecString(s, i)
+
+\* Where the manual admits two readings (DAA/DAS, DESIGN.md 7.4) every reading is a result
+ExecAlts(s, i, idx) ==
+  IF i.cls = "adjust" /\ i.op \in {"daa", "das"}
+  THEN {AdjustRes(s, r) : r \in AdjustAlts(i.op, s.regs["ax"], s.regs["dx"], s.flags)}
+  ELSE {Exec(s, i, idx)}
 
 (***************************************************************************)
 (* Post-state predicates used by model checking and trace validation       *)
